@@ -200,7 +200,7 @@ Section Inv2.
 
   Lemma inv2_trans s s' : TRANS s s' -> Inv2 s -> Inv2 s'.
   Proof.
-    intros T I. destruct T as [s i j g h R F N C | s i j g h R F N C].
+    intros (i & j & T) I. destruct T as [s g h R F N C | s g h R F N C].
     - apply inv2_to; auto.
     - apply inv2_from; auto.
   Qed.
